@@ -6,7 +6,8 @@ value dropped) is applied to a scratch copy of /repo HEAD; mutants the test suit
 This is an *evaluation* of the checkers, not a check: it runs the test suite (to find the mutants the tests cannot settle) and
 then the static checks on each surviving mutant.  Results: <out>/survivors.json (per surviving mutant: which checks report it).
 
-usage: tools/mutation_sweep.py [--out DIR] [--jobs N] [--files a.py,b.py] [--limit N]
+usage: tools/mutation_sweep.py [--out DIR] [--jobs N] [--files a.py,b.py] [--limit N] [--grammar]
+(--grammar: textual mutants of the precedence table, keyword table, token regexes and production docstrings instead)
 """
 import ast, copy, json, os, shutil, subprocess, sys, tempfile
 from concurrent.futures import ThreadPoolExecutor
@@ -113,6 +114,56 @@ def mutants_of(src: str):
                     yield emit('L%d drop `%s`' % (ln, ast.unparse(n)[:60]), lambda v=v, i=i, new=new: v.__setitem__(i, new), lambda v=v, i=i, n=n: v.__setitem__(i, n))
 
 
+def grammar_mutants(rel: str, src: str):
+    """Textual mutants of what the AST mutators do not reach: the precedence table and the keyword tables of lexer.py, token regexes
+    (string rules and docstrings of token functions), and the production docstrings of rules.py."""
+    import re
+    lines = src.split('\n')
+    if rel == 'lexer.py':
+        # precedence rows: associativity flipped, adjacent rows swapped, one token dropped
+        rows = [i for i, l in enumerate(lines) if re.match(r"\s*\('(left|right|nonassoc)',", l)]
+        for i in rows:
+            for a, b in (("'left'", "'right'"), ("'right'", "'left'")):
+                if a in lines[i]:
+                    yield 'L%d precedence %s -> %s' % (i + 1, a, b), '\n'.join(lines[:i] + [lines[i].replace(a, b, 1)] + lines[i + 1:])
+            toks = re.findall(r"'([A-Z_]+)'", lines[i])
+            for t in toks:
+                new = re.sub(r",\s*'%s'" % t, '', lines[i], count=1)
+                if new != lines[i]:
+                    yield 'L%d precedence row loses %s' % (i + 1, t), '\n'.join(lines[:i] + [new] + lines[i + 1:])
+        for i, j in zip(rows, rows[1:]):
+            if j == i + 1:
+                sw = list(lines)
+                sw[i], sw[j] = sw[j], sw[i]
+                yield 'L%d precedence rows %d/%d swapped' % (i + 1, i + 1, j + 1), '\n'.join(sw)
+        # string token rules: t_X = r'...'
+        for i, l in enumerate(lines):
+            m = re.match(r"(t_[A-Z_]+\s*=\s*r?)(['\"])(.*)\2\s*$", l)
+            if m and m.group(3):
+                rx = m.group(3)
+                for desc, new in (('regex loses its last character', rx[:-1]), ('regex made optional', '(' + rx + ')?') if False else ('regex doubled', rx + rx)):
+                    if new:
+                        yield 'L%d %s %s' % (i + 1, m.group(1).split('=')[0].strip(), desc), '\n'.join(lines[:i] + [m.group(1) + m.group(2) + new + m.group(2)] + lines[i + 1:])
+        # keyword table entries dropped
+        for i, l in enumerate(lines):
+            if re.match(r"\s*'[A-Za-z]+':\s*'[A-Z]+',\s*$", l):
+                yield 'L%d keyword entry dropped: %s' % (i + 1, l.strip()), '\n'.join(lines[:i] + lines[i + 1:])
+    if rel == 'rules.py':
+        # production docstrings: an alternative dropped, two adjacent symbols swapped
+        for i, l in enumerate(lines):
+            m = re.match(r'(\s*)\|\s*(.+?)\s*("""\s*)?$', l)
+            if m and not l.strip().startswith('#'):
+                syms = m.group(2).split()
+                if all(re.match(r"[A-Za-z_%]+$", x) for x in syms) and syms:
+                    tail = m.group(3) or ''
+                    yield 'L%d alternative dropped: %s' % (i + 1, m.group(2)), '\n'.join(lines[:i] + ([m.group(1) + tail] if tail else []) + lines[i + 1:])
+                    for k in range(len(syms) - 1):
+                        if syms[k] != syms[k + 1] and '%prec' not in syms[k:k + 2]:
+                            sw = syms[:k] + [syms[k + 1], syms[k]] + syms[k + 2:]
+                            yield 'L%d symbols %d/%d swapped in `%s`' % (i + 1, k + 1, k + 2, m.group(2)), \
+                                '\n'.join(lines[:i] + [m.group(1) + '| ' + ' '.join(sw) + (' ' + tail if tail else '')] + lines[i + 1:])
+
+
 def run(cmd, cwd=None, timeout=300):
     try:
         r = subprocess.run(cmd, shell=True, cwd=cwd, capture_output=True, text=True, timeout=timeout)
@@ -159,8 +210,16 @@ def main():
     for rel in files:
         src = open(os.path.join(base, 'smartquery', rel)).read()
         seen = set()
-        for desc, text in mutants_of(src):
-            if text in seen or text == ast.unparse(ast.parse(src)):
+        if '--grammar' in sys.argv:
+            gen = grammar_mutants(rel, src)
+        else:
+            gen = mutants_of(src)
+        for desc, text in gen:
+            if text in seen or text == ast.unparse(ast.parse(src)) or text == src:
+                continue
+            try:
+                compile(text, rel, 'exec')
+            except SyntaxError:
                 continue
             seen.add(text)
             todo.append([len(todo), rel, desc, text, base, out])
